@@ -1,6 +1,9 @@
 from vlib.common import nt_len, NOTE, SCHED_TRUSTED
 
 _COQ = ["Common/ListLemmas.v", "Routine/Model.v", "Routine/Spec.v", "Routine/Proofs.v"]
+# model_satisfies_monitors for all event lists (the monitors against the model): Routine/ProofsMon.v and what it needs
+_MON_COQ = ["Routine/ProofsMonInv.v", "Routine/ProofsMonObs.v", "Routine/ProofsMonStep.v", "Routine/ProofsMonDef.v", "Routine/ProofsMonR.v",
+            "Routine/ProofsMonNB.v", "Routine/ProofsMonEv.v", "Routine/ProofsMonBook.v", "Routine/ProofsMonBk.v", "Routine/ProofsMon.v"]
 _RULE = ("implementation-driven random gate-level histories of RoutineContainer and StateRoutineContainer (SetContext/SetRoutine/"
          "SetState/SwapValue/SetStateRoutine/RestartRoutine, instances stepped through their first select, user-function returns "
          "with nil/Canceled/error, bookkeeping sections, fake-clock advances and retry-timer callbacks, WaitExited callers with "
@@ -59,7 +62,7 @@ _ASSUME = ["root contexts are not cancelled from outside while installed (the mo
 _TECH = "Coq inductive invariant over a gate-level interleaving model + schedule-controlled differential correspondence (synctest, fake clock) against the Go code"
 
 PROPS = {
-    "C04": dict(pid=4, coq=_COQ + ["Routine/Props_C04.v"], props_file="Routine/Props_C04.v", models=_MODELS, trusted=_TRUSTED, assumptions=_ASSUME,
+    "C04": dict(pid=4, coq=_COQ + ["Routine/Props_C04.v"] + ["Routine/ProofsC05.v", "Routine/ProofsC14.v", "Routine/ProofsC14b.v"] + _MON_COQ, props_file="Routine/Props_C04.v", models=_MODELS, trusted=_TRUSTED, assumptions=_ASSUME,
                 meta=dict(
                     text="Coq theorems over ALL event lists of a gate-level model of RoutineContainer/StateRoutineContainer (any number of "
                          "instances, every interleaving of API sections, first-select choices, wake-ups, user-function returns, bookkeeping "
@@ -71,7 +74,7 @@ PROPS = {
                          "implementation's observations.",
                     note=NOTE + "Root contexts are never cancelled from outside in the model. Gate placement trusted.",
                     technique=_TECH)),
-    "C05": dict(pid=5, coq=_COQ + ["Routine/ProofsC05.v", "Routine/Props_C05.v"], props_file="Routine/Props_C05.v", models=_MODELS, trusted=_TRUSTED, assumptions=_ASSUME,
+    "C05": dict(pid=5, coq=_COQ + ["Routine/ProofsC05.v", "Routine/Props_C05.v"] + ["Routine/ProofsC14.v", "Routine/ProofsC14b.v"] + _MON_COQ, props_file="Routine/Props_C05.v", models=_MODELS, trusted=_TRUSTED, assumptions=_ASSUME,
                 meta=dict(
                     text="Coq invariant over all event lists of the same model: an instance whose context is live is the current instance of the "
                          "current routine record, the container has a context, the instance derives from exactly that context and (state variant) "
@@ -82,7 +85,7 @@ PROPS = {
                          "newest one, has the current root context and state, and exists only if context, routine and state are set.",
                     note=NOTE + "The harness observes an instance's context only while it is inside the user function.",
                     technique=_TECH)),
-    "C14": dict(pid=14, coq=_COQ + ["Routine/ProofsC14.v", "Routine/ProofsC14b.v", "Routine/Sweep.v", "Routine/Props_C14.v"] + _BACKOFF_COQ, props_file="Routine/Props_C14.v", extra_props_files=["Backoff/Props_C14_backoff.v"], models=_MODELS + [_BACKOFF_MODEL], trusted=_TRUSTED + _TRUSTED_BACKOFF, assumptions=_ASSUME,
+    "C14": dict(pid=14, coq=_COQ + ["Routine/ProofsC14.v", "Routine/ProofsC14b.v", "Routine/Sweep.v", "Routine/Props_C14.v"] + _BACKOFF_COQ + ["Routine/ProofsC05.v"] + _MON_COQ, props_file="Routine/Props_C14.v", extra_props_files=["Backoff/Props_C14_backoff.v"], models=_MODELS + [_BACKOFF_MODEL], trusted=_TRUSTED + _TRUSTED_BACKOFF, assumptions=_ASSUME,
                 meta=dict(
                     text="Coq theorems about the same model, per step from every state (hence along every event list): only API calls and retry "
                          "callbacks start instances; a recorded success is never re-run by SetContext; a recorded error is not re-run by SetContext "
@@ -92,8 +95,11 @@ PROPS = {
                          "current record's status. The reference machine itself is the monitor state run on the implementation's observations "
                          "(clauses: no re-run after success / after error except by the listed causes, retry pending until it fires, WaitExited "
                          "result, exit reporting).",
-                    note=NOTE + "PARTIAL: the full refinement of the model to the reference machine is not a single theorem; the reference machine is "
-                                "the monitor, evaluated on every implementation trace, and the per-step theorems cover its transitions. 'Returned nil' "
+                    note=NOTE + "The reference machine of the property is the monitor; c14_model_satisfies_monitors proves, for every configuration with at least "
+                                "one exit callback and non-zero back-off durations and for every event list, that the monitor reports nothing on the model's own "
+                                "observations (all clauses of C04, C05 and C14), so model and reference machine agree on every history; the monitor is also "
+                                "evaluated on every implementation trace. The backoff package itself (Construct defaults, the vendor's exponential/constant "
+                                "algorithm with exact binary64 rounding, Stop rule) is a second model with its own theorems and harness. 'Returned nil' "
                                 "means recorded as the current instance's exit (DESIGN.md C14 interpretation).",
                     technique=_TECH)),
 }
